@@ -603,9 +603,23 @@ void sim_mon_on_closed_by_peer(struct sim *s)
 			CNT("c13/downgrade_trigger/closed-without-answer");
 		} else {
 			/* a session existed earlier and was dropped, or part of an answer had arrived before the
-			 * cache hung up: lowering is tolerated, not demanded */
-			s->mv_optional_lower = true;
-			CNT("c13/downgrade_trigger/closed-without-answer-optional");
+			 * cache hung up: lowering is tolerated, not demanded - unless a complete PDU of this exchange had
+			 * been delivered: then the cache did answer, and hanging up later is no reason to go down */
+			size_t got = s->delivered_total >= s->ex.resp_off ? s->delivered_total - s->ex.resp_off : 0;
+			bool answered = false;
+
+			if (got >= 8 && s->ex.resp_off + 8 <= s->dlog_len) {
+				const uint8_t *h = s->dlog + s->ex.resp_off;
+				uint32_t flen = rd32(h + 4);
+
+				answered = h[1] != 0 && flen >= 8 && got >= flen;
+			}
+			if (!answered) {
+				s->mv_optional_lower = true;
+				CNT("c13/downgrade_trigger/closed-without-answer-optional");
+			} else {
+				CNT("c13/closed_after_a_complete_pdu_no_downgrade_allowed");
+			}
 		}
 	}
 }
